@@ -22,6 +22,9 @@ fn num_dump<T: JsonValueTrait>(v: &T, out: &mut String) {
 
 /// walks a borrowed lazy value through its accessors
 fn view(v: &LazyValue<'_>, depth: usize, out: &mut String) {
+    if v.as_raw_number().is_some() != (v.get_type() == JsonType::Number) {
+        out.push_str("RAWNUM!");
+    }
     match v.get_type() {
         JsonType::Null => out.push('n'),
         JsonType::Boolean => match v.as_bool() {
@@ -92,6 +95,9 @@ fn view(v: &LazyValue<'_>, depth: usize, out: &mut String) {
 
 /// walks an owned lazy value through its accessors
 fn view_owned(v: &OwnedLazyValue, depth: usize, out: &mut String) {
+    if v.as_raw_number().is_some() != (v.get_type() == JsonType::Number) {
+        out.push_str("RAWNUM!");
+    }
     match v.get_type() {
         JsonType::Null => out.push('n'),
         JsonType::Boolean => match v.as_bool() {
@@ -207,7 +213,8 @@ pub fn run_case(t: &[u8]) -> String {
             let c2 = v.clone();
             let b = ow(&c1);
             let c = ow(&c2);
-            if a == b && b.split('|').next() == c.split('|').next() { a } else { format!("CLONE!{}!{}!{}", a, b, c) }
+            // (a clone taken after the value was read must still serialize verbatim)
+            if a == b && b == c { a } else { format!("CLONE!{}!{}!{}", a, b, c) }
         }
         Err(_) => "R".into(),
     });
@@ -216,6 +223,19 @@ pub fn run_case(t: &[u8]) -> String {
             let taken = v.take();
             if v.get_type() != JsonType::Null { "TAKE!".to_string() } else { ow(&taken) }
         }
+        Err(_) => "R".into(),
+    });
+    // Display is the serialization
+    ep!("d.display", match (sonic_rs::from_slice::<LazyValue>(t), sonic_rs::from_slice::<OwnedLazyValue>(t)) {
+        (Ok(l), Ok(o)) => format!("{}|{}", hex(format!("{}", l).as_bytes()), hex(format!("{}", o).as_bytes())),
+        _ => "R".into(),
+    });
+    // an owned lazy value made by serializing a Rust value (here: the DOM of the text)
+    ep!("o.tolazy", match sonic_rs::from_slice::<sonic_rs::Value>(t) {
+        Ok(v) => match sonic_rs::to_lazyvalue(&v) {
+            Ok(o) => ow(&o),
+            Err(_) => "SERERR".into(),
+        },
         Err(_) => "R".into(),
     });
     // embedded in a typed structure together with other fields
